@@ -10,8 +10,8 @@ Import ListNotations.
 Open Scope Z_scope.
 
 (* one observation: which runtime (0 = original, k > 0 = a copy), which
-   observation program (0 = generic; 201 = the pinned witness of finding class 3;
-   203 = the regression witness of the repaired eval finding), the text it returned there, and the text it returned on
+   observation program (0 = generic; 1 = script dump of the user heap; 201 = the regression
+   witness of the repaired f.caller finding), the text it returned there, and the text it returned on
    that runtime's replica (a fresh runtime that replayed the same scripts) *)
 Definition obs := (Z * Z * list Z * list Z)%type.
 
@@ -28,25 +28,17 @@ Inductive case :=
            (phi : list (Z * Z)) (rt' : runtime).
 
 (* ---- black box ---- *)
-(* feature codes 101 (a live closure of a function with a parameter named `arguments`), 102
-   (global `eval` deleted or bound to a non-object) and 103 (global `eval` bound to another
-   function at the time of Copy()) were the witnesses of findings repaired by 4582d68 and
-   1f3ee72: they are ordinary features now and expect an equivalent, independent copy. *)
-Definition f_caller   := 104.   (* functions that inspect f.caller *)
-
-Definition str_false : list Z := [102; 97; 108; 115; 101].
-
+(* No deviation of Copy() is left to model: what a script returns on a copy is what it
+   returns on the replica.  Feature codes 101 (a live closure of a function with a parameter
+   named `arguments`), 102 / 103 (global `eval` deleted, bound to a non-object, bound to
+   another function) and 104 (functions that inspect f.caller; observation 201) were the
+   witnesses of findings repaired by 4582d68, 1f3ee72 and b9d7aab: they are ordinary
+   features and regression cases now. *)
 Definition model_copy_ok (hist : list Z) : bool := true.
 
-Definition model_obs (hist : list Z) (o : obs) : list Z :=
-  match o with
-  | (side, q, _, repl) =>
-      if (0 <? side) && (q =? 201) && mem f_caller hist then str_false
-      else repl
-  end.
+Definition model_obs (hist : list Z) (o : obs) : list Z := snd o.
 
-Definition black_class (hist : list Z) : Z :=
-  if mem f_caller hist then 3 else 0.
+Definition black_class (hist : list Z) : Z := 0.
 
 Definition real_of (o : obs) : list Z := snd (fst o).
 Definition repl_of (o : obs) : list Z := snd o.
